@@ -25,9 +25,11 @@ func genShape(t *rapid.T, w *chain.World, yields bool) (*chain.Program, *chain.P
 	}
 	cfg := chain.ProgCfg{
 		MaxDepth: rapid.IntRange(0, 2).Draw(t, "maxDepth"), MaxMw: 2, MaxStmts: 5, Fallbacks: true, Dynamic: true, AnyRoutes: true,
-		Script: chain.ScriptCfg{Writes: true, Data: true, Yields: yields, Abort: 12},
+		Script: chain.ScriptCfg{Writes: true, Data: true, Yields: yields, Copies: true, Abort: 12, Panic: 16},
 	}
 	prog := chain.GenProgram(t, w, opts, cfg)
+	// a panic hook, so that a panicking request is contained and the others go on
+	prog.Hooks.OnPanic = w.NewScript("onpanic", chain.Op{K: chain.OpStatus, N: 500})
 	// global middleware added through several separate Use calls: this is what leaves spare capacity in the shared slice
 	nuse := rapid.IntRange(0, 4).Draw(t, "globalUseCalls")
 	var pre []*chain.Stmt
@@ -118,6 +120,12 @@ func execSchedule(prog *chain.Program, pm *chain.PModel, reqs [][2]string, pick 
 			return fmt.Sprintf("request %d: %v\n%s", i, err, ctx()), schedule, overlaps, switches
 		}
 	}
+	// context copies taken by handlers keep what they held when their request ended
+	for i := range reqs {
+		if err := states[i].CheckCopies(); err != nil {
+			return fmt.Sprintf("%v\n%s", err, ctx()), schedule, overlaps, switches
+		}
+	}
 	// oracle 2: the same requests, one after the other, on a fresh twin router
 	w2 := chain.NewWorld()
 	twin := prog.Apply(w2)
@@ -196,6 +204,22 @@ func propRace(t *rapid.T) {
 	var wg sync.WaitGroup
 	errs := make(chan string, ng)
 	start := make(chan struct{})
+	copies := make(chan *chain.ReqState, ng*per)
+	var bg sync.WaitGroup
+	bg.Add(1)
+	go func() { // the "background job" that reads context copies while other requests are being served
+		defer bg.Done()
+		for st := range copies {
+			for k := 0; k < 3; k++ {
+				if err := st.CheckCopies(); err != nil {
+					select {
+					case errs <- err.Error():
+					default:
+					}
+				}
+			}
+		}
+	}()
 	for g := 0; g < ng; g++ {
 		wg.Add(1)
 		go func(g int) {
@@ -203,7 +227,10 @@ func propRace(t *rapid.T) {
 			<-start
 			for k := 0; k < per; k++ {
 				q := reqs[(g+k)%len(reqs)]
-				msg, _ := chain.CheckRequest(w, r, pm, q[0], q[1])
+				msg, _, st := chain.CheckRequestState(w, r, pm, q[0], q[1])
+				if st != nil && len(st.Copies) > 0 {
+					copies <- st
+				}
 				if msg != "" {
 					select {
 					case errs <- msg:
@@ -216,6 +243,8 @@ func propRace(t *rapid.T) {
 	}
 	close(start)
 	wg.Wait()
+	close(copies)
+	bg.Wait()
 	ev.ClassN("concurrent-requests", ng*per)
 	select {
 	case msg := <-errs:
